@@ -42,6 +42,8 @@ type Ctx struct {
 
 	// Break depth.
 	brkD int
+	// Depth of nested write() calls (includes).
+	wd int
 
 	// List of internal byte writers to process include expressions.
 	w  []bytes.Buffer
@@ -323,6 +325,7 @@ func (ctx *Ctx) Reset() {
 	ctx.bufA = ctx.bufA[:0]
 	ctx.bufLC = ctx.bufLC[:0]
 	ctx.brkD = 0
+	ctx.wd = 0
 	if ctx.rl != nil {
 		ctx.rl.Reset()
 	}
